@@ -574,7 +574,7 @@ fn family_grammar(tier: Tier, sink: &mut Sink) {
             for &(w, h) in sizes {
                 let cap = mb_grid(w, h).0 * mb_grid(w, h).1;
                 let hists = histories(s, tier.thorough() || cap <= 2);
-                let maxd = if cap <= 2 || (tier.thorough() && cap <= 4) { 2 } else { 1 };
+                let maxd = if tier.thorough() { if cap <= 2 { 3 } else { 2 } } else if cap <= 2 { 2 } else { 1 };
                 for q in [1u8, 31] {
                     let hdr = stream_hdr(s, w, h, ptype, q, 9);
                     for (hname, hist) in &hists {
@@ -610,6 +610,20 @@ fn family_grammar(tier: Tier, sink: &mut Sink) {
                                                     seq[j] = &l2.1;
                                                     let bytes = put_letters(&hdr, &seq, 0);
                                                     sink.case(opts, hist, &bytes, &|| lab(format!("positions {i},{j} = {}, {}", l.0, l2.0)));
+                                                    if maxd >= 3 && hname == "after-I16" || maxd >= 3 && hname == "fresh" {
+                                                        // third deviation (pictures of at most two macroblocks, two histories)
+                                                        for k in j + 1..len {
+                                                            for (lk, l3) in letters.iter().enumerate().skip(1) {
+                                                                if (li + lj + lk) % 2 != 0 {
+                                                                    continue;
+                                                                }
+                                                                seq[k] = &l3.1;
+                                                                let bytes = put_letters(&hdr, &seq, 0);
+                                                                sink.case(opts, hist, &bytes, &|| lab(format!("positions {i},{j},{k} = {}, {}, {}", l.0, l2.0, l3.0)));
+                                                            }
+                                                            seq[k] = deflt;
+                                                        }
+                                                    }
                                                 }
                                                 seq[j] = deflt;
                                             }
@@ -1233,7 +1247,7 @@ pub fn run(tier: Tier) -> Report {
         rep.states.store(0, std::sync::atomic::Ordering::Relaxed);
     }
     rep.set_rule(
-        "decode_next_picture under catch_unwind (overflow checks on) in isolated single-threaded worker processes with a shared-memory journal, watchdog and address-space cap: (1) macroblock-token sequences of length 0..capacity+2 with at most d non-default letters (d=2 for pictures of <= 2 macroblocks, and <= 4 in the thorough tier; d=1 otherwise) over complete-macroblock alphabets (every MCBPC/CBPY codeword, stuffing, invalid prefixes, DQUANT, extreme/invalid MVDs, block letters: escapes 0/min/max per width, run overflow, INTRADC 0/128/255, invalid TCOEF) x 3 stream kinds x I/P/D x sizes x quantizers 1,31 x decoder histories x option sets x tails; (2) a header alphabet (zero/odd/huge/reserved sizes, all types, marker errors, PLUSPTYPE mode patterns) x bodies x histories, truncated at every byte; (3) every single-byte substitution, deletion and duplication of base pictures; (4) all byte strings of <= 2 (thorough 3) bytes alone and all 2-byte strings after headers; (6) unrestricted-motion-vector accumulations; (8, thorough) every adjacent byte pair over all 65536 values and every pair of positions over a 16-value alphabet on tiny base pictures; (7) every 64x64 differential pair (one- and four-vector) at every macroblock position of small predicted pictures; plus labelled random sampling; inputs declaring more than 2^22 pixels are excluded by an exact header pre-filter; non-trivial = inputs that begin with a start code",
+        "decode_next_picture under catch_unwind (overflow checks on) in isolated single-threaded worker processes with a shared-memory journal, watchdog and address-space cap: (1) macroblock-token sequences of length 0..capacity+2 with at most d non-default letters (quick: d=2 for pictures of <= 2 macroblocks, d=1 otherwise; thorough: d=2 everywhere and d=3 for pictures of <= 2 macroblocks in two histories) over complete-macroblock alphabets (every MCBPC/CBPY codeword, stuffing, invalid prefixes, DQUANT, extreme/invalid MVDs, block letters: escapes 0/min/max per width, run overflow, INTRADC 0/128/255, invalid TCOEF) x 3 stream kinds x I/P/D x sizes x quantizers 1,31 x decoder histories x option sets x tails; (2) a header alphabet (zero/odd/huge/reserved sizes, all types, marker errors, PLUSPTYPE mode patterns) x bodies x histories, truncated at every byte; (3) every single-byte substitution, deletion and duplication of base pictures; (4) all byte strings of <= 2 (thorough 3) bytes alone and all 2-byte strings after headers; (6) unrestricted-motion-vector accumulations; (8, thorough) every adjacent byte pair over all 65536 values and every pair of positions over a 16-value alphabet on tiny base pictures; (7) every 64x64 differential pair (one- and four-vector) at every macroblock position of small predicted pictures; plus labelled random sampling; inputs declaring more than 2^22 pixels are excluded by an exact header pre-filter; non-trivial = inputs that begin with a start code",
     );
     rep.sample(json!({"family": "grammar", "case": "Sorenson v1 P 32x16 q=31 after [I 32x32]: [inter mv0, blk0 escape-max, inter mv0] + following start code"}));
     rep.sample(json!({"family": "headers", "case": "Sorenson v0 size 0x16 type 0, body = 1 default macroblock, after [I 16x16, D 16x16]"}));
